@@ -28,11 +28,47 @@ def load_unknown(dataset, unpack_dataset_columns, kwargs):
     return not known_loader(dataset)
 
 
-contract(REMOTE, params=dict(remote=Any, dataset_filename=Str, dataset_folder=Str, data_home=Opt(Str), download_if_missing=Bool,
+REMOTE_T = Named('RemoteFileMetadata', filename=Str, url=Str, checksum=Str)
+
+contract(REMOTE, params=dict(remote=REMOTE_T, dataset_filename=Str, dataset_folder=Str, data_home=Opt(Str), download_if_missing=Bool,
                              download_even_if_available=Bool, validate_checksum=Bool, n_retries=Int, delay=Real, gzip=Bool,
                              unpack_dataset_columns=Bool),
-         returns=Union(Seq2(Real), Tuple(Seq(Real), Seq(Real))), event='remote_load', no_rt=True,
-         raises_only=['OSError', 'URLError', 'TimeoutError', 'Exception'])
+         returns=Union(Seq2(Real), Tuple(Seq(Real), Seq(Real))), event='remote_load', no_rt=True, no_frame=True,
+         raises_only=['OSError', 'URLError', 'TimeoutError', 'Exception', 'ValueError', 'UnpicklingError', 'FileNotFoundError',
+                      'FileExistsError'],
+         program_point_invariant='cache_ok', fs_guarantee='cache_file')
+
+
+def home(data_home):
+    return expanduser((env_value('TRAFFIC_WEAVER_DATA') if env_is_set('TRAFFIC_WEAVER_DATA') else '~/.traffic-weaver-data')
+                      if data_home is None else data_home)
+
+
+def cache_file(remote, dataset_filename, dataset_folder, data_home, download_if_missing, download_even_if_available,
+               validate_checksum, n_retries, delay, gzip, unpack_dataset_columns):
+    """the cache entry of this dataset"""
+    return path_join(path_join(home(data_home), dataset_folder), dataset_filename)
+
+
+def entry_ok(kind, content, checksum, gzip):
+    """absent, or a complete copy of verified data"""
+    return kind == 0 or (kind == 2 and good(content, checksum, gzip))
+
+
+def cache_ok(remote, dataset_filename, dataset_folder, data_home, download_if_missing, download_even_if_available,
+             validate_checksum, n_retries, delay, gzip, unpack_dataset_columns):
+    """C19 invariant, required to hold after EVERY statement and on EVERY exceptional edge (= at every crash point)"""
+    return entry_ok(fs_kind(path_join(path_join(home(data_home), dataset_folder), dataset_filename)),
+                    fs_content(path_join(path_join(home(data_home), dataset_folder), dataset_filename)), remote.checksum, gzip)
+
+
+@requires(REMOTE)
+def remote_pre(remote, dataset_filename, dataset_folder, data_home, download_if_missing, download_even_if_available,
+               validate_checksum, n_retries, delay, gzip, unpack_dataset_columns):
+    return (n_retries >= 0 and validate_checksum and not unpack_dataset_columns
+            # the invariant is inductive over runs: the entry is assumed fine before this load
+            and entry_ok(fs_kind(path_join(path_join(home(data_home), dataset_folder), dataset_filename)),
+                         fs_content(path_join(path_join(home(data_home), dataset_folder), dataset_filename)), remote.checksum, gzip))
 
 
 @ensures(REMOTE)
@@ -41,7 +77,34 @@ def remote_shape(remote, dataset_filename, dataset_folder, data_home, download_i
     return (is_tuple(result) if unpack_dataset_columns else is_2d(result))
 
 
-contract(HOME, params=dict(data_home=Opt(Str)), returns=Str, no_rt=True)
+@ensures(REMOTE, export=False)
+def remote_returns_cached_verified(remote, dataset_filename, dataset_folder, data_home, download_if_missing,
+                                   download_even_if_available, validate_checksum, n_retries, delay, gzip, unpack_dataset_columns, result):
+    """after a successful load the entry is a complete copy of verified data and what is returned is exactly that data"""
+    return (fs_kind(path_join(path_join(home(data_home), dataset_folder), dataset_filename)) == 2
+            and good(fs_content(path_join(path_join(home(data_home), dataset_folder), dataset_filename)), remote.checksum, gzip)
+            and data_of(result) == unpickle(fs_content(path_join(path_join(home(data_home), dataset_folder), dataset_filename)))
+            and good_data(result, remote.checksum, gzip))
+
+
+@ensures(REMOTE, export=False)
+def remote_hit_without_network(remote, dataset_filename, dataset_folder, data_home, download_if_missing,
+                               download_even_if_available, validate_checksum, n_retries, delay, gzip, unpack_dataset_columns, result):
+    """a cached dataset is served without network access and the entry is left as it was"""
+    return implies(fs0_kind(path_join(path_join(home(data_home), dataset_folder), dataset_filename)) != 0
+                   and not (download_if_missing and download_even_if_available),
+                   net_calls() == net_calls0()
+                   and fs_content(path_join(path_join(home(data_home), dataset_folder), dataset_filename))
+                   == fs0_content(path_join(path_join(home(data_home), dataset_folder), dataset_filename)))
+
+
+@ensures(REMOTE, export=False)
+def remote_bounded_network(remote, dataset_filename, dataset_folder, data_home, download_if_missing,
+                           download_even_if_available, validate_checksum, n_retries, delay, gzip, unpack_dataset_columns, result):
+    return net_calls() - net_calls0() <= n_retries + 1
+
+
+contract(HOME, params=dict(data_home=Opt(Str)), returns=Str, no_rt=True, inline=True)
 
 
 @ensures(HOME)
@@ -49,3 +112,77 @@ def home_post(data_home, result):
     """the cache lives under the directory named by TRAFFIC_WEAVER_DATA when it is set"""
     return result == expanduser((env_value('TRAFFIC_WEAVER_DATA') if env_is_set('TRAFFIC_WEAVER_DATA') else '~/.traffic-weaver-data')
                                 if data_home is None else data_home)
+
+
+# ======================================================================================= C19
+
+SHA256 = B + '_sha256'
+FETCH = B + '_fetch_remote'
+
+contract(SHA256, params=dict(path=Str), returns=Str, no_rt=True, no_frame=True)
+
+
+@requires(SHA256)
+def sha_pre(path):
+    return fs_kind(path) != 0
+
+
+@ensures(SHA256)
+def sha_post(path, result):
+    """the digest of exactly the bytes of the file"""
+    return result == sha(fs_content(path))
+
+
+@invariant(SHA256, loop=1)
+def sha_inv(f, sha256hash, chunk_size, path):
+    return (chunk_size == 8192 and file_pos(f) >= 0 and file_pos(f) <= strlen(file_content(f))
+            and file_content(f) == fs_content(path)
+            and strcat(hash_acc(sha256hash), substr(file_content(f), file_pos(f), strlen(file_content(f)) - file_pos(f)))
+            == file_content(f)
+            and strlen(hash_acc(sha256hash)) == file_pos(f))
+
+
+@decreases(SHA256, loop=1)
+def sha_dec(f):
+    return strlen(file_content(f)) - file_pos(f)
+
+
+# ------------------------------------------------------------------------------ _fetch_remote
+
+contract(FETCH, params=dict(remote=REMOTE_T, dirname=Opt(Str), n_retries=Int, delay=Real, validate_checksum=Bool), returns=Str,
+         no_rt=True, no_frame=True, raises_only=['URLError', 'TimeoutError', 'Exception'], inline=True)
+
+
+def target(remote, dirname):
+    return remote.filename if dirname is None else path_join(dirname, remote.filename)
+
+
+@requires(FETCH)
+def fetch_pre(remote, dirname, n_retries, delay, validate_checksum):
+    return n_retries >= 0
+
+
+@raises(FETCH, 'OSError')
+def fetch_checksum_mismatch(remote, dirname, n_retries, delay, validate_checksum):
+    """a payload whose SHA-256 differs from the pinned one is refused (the condition is on the state *after* the download)"""
+    return validate_checksum and sha(fs_content(target(remote, dirname))) != remote.checksum
+
+
+@invariant(FETCH, loop=1)
+def fetch_inv(remote, n_retries, n_retries__pre, file_path, dirname):
+    """retries left + network accesses made so far = initial budget"""
+    return (0 <= n_retries and n_retries <= n_retries__pre and file_path == target(remote, dirname)
+            and net_calls() - net_calls0() == n_retries__pre - n_retries)
+
+
+@decreases(FETCH, loop=1)
+def fetch_dec(n_retries):
+    return n_retries
+
+
+@ensures(FETCH)
+def fetch_post(remote, dirname, n_retries, delay, validate_checksum, result):
+    """returns only after a successful download, within the retry budget; the file is complete and (if asked) verified"""
+    return (result == target(remote, dirname) and fs_kind(result) == 2
+            and 1 <= net_calls() - net_calls0() and net_calls() - net_calls0() <= n_retries + 1
+            and implies(validate_checksum, sha(fs_content(result)) == remote.checksum))
